@@ -35,7 +35,12 @@ func vsS17() {
 	wp0, wa0, wp1, wq1, wa1 := 1, 2, 3, 5, 7
 	p0, a0 := vNewSync(vMakeText(wp0, 0)), vNewSync(vMakeText(wa0, 0))
 	p1, q1, a1 := vNewSync(vMakeText(wp1, 0)), vNewSync(vMakeText(wq1, 0)), vNewSync(vMakeText(wa1, 0))
-	b0, _ := e.p.Add(2, vNewMark(2), BarFillerTrim(), PrependDecorators(p0), AppendDecorators(a0))
+	var first decor.Decorator = p0
+	if vParam("onComplete") != 0 {
+		// the usual idiom for blanking a decorator on completion: the wrapper keeps its place in the column
+		first = decor.OnComplete(p0, "")
+	}
+	b0, _ := e.p.Add(2, vNewMark(2), BarFillerTrim(), PrependDecorators(first), AppendDecorators(a0))
 	b1, _ := e.p.Add(2, vNewMark(3), BarFillerTrim(), PrependDecorators(p1, q1), AppendDecorators(a1))
 	if mode == vManual {
 		e.cycle()
@@ -43,14 +48,25 @@ func vsS17() {
 		_ = b0.Current()
 	}
 	b0.IncrBy(2)
+	if vParam("onComplete") != 0 && mode == vManual {
+		e.cycle() // bar 0 is drawn completed while bar 1 still runs: the column goes on working
+		e.cycle()
+		vAssert(p1.last == wp1, "S17.column-of-a-blanked-completed-decorator-follows-the-remaining-members")
+	}
 	b1.IncrBy(2)
 	if mode == vManual {
 		e.refresh <- nil
 		e.refresh <- nil
 	}
 	e.vFinish("S17", b0, b1)
-	vAssert(p0.calls >= 1 && p1.calls >= 1 && a0.calls >= 1 && a1.calls >= 1 && q1.calls >= 1, "S17.every-decorator-drawn")
-	vAssert(p0.last == vMax(wp0, wp1) && p1.last == vMax(wp0, wp1), "S17.first-prepend-column-common-width")
+	vAssert(p1.calls >= 1 && a0.calls >= 1 && a1.calls >= 1 && q1.calls >= 1, "S17.every-decorator-drawn")
+	if vParam("onComplete") == 0 {
+		vAssert(p0.calls >= 1, "S17.every-decorator-drawn")
+		vAssert(p0.last == vMax(wp0, wp1) && p1.last == vMax(wp0, wp1), "S17.first-prepend-column-common-width")
+	} else if mode == vManual {
+		// (under auto refresh the wrapped decorator may never be asked before its bar completes)
+		vAssert(p0.calls >= 1 && p0.last == vMax(wp0, wp1), "S17.first-prepend-column-common-width")
+	}
 	vAssert(q1.last == wq1, "S17.second-prepend-column-has-one-member")
 	vAssert(a0.last == vMax(wa0, wa1) && a1.last == vMax(wa0, wa1), "S17.append-column-common-width")
 }
@@ -206,7 +222,7 @@ func vsS22() {
 		extra = append(extra, PopCompletedMode())
 	}
 	e := vNewContainer(mode, -1, extra...)
-	if kase == 1 && mode == vManual {
+	if kase >= 1 && mode == vManual {
 		e.vTicks()
 	}
 	mk := func(digit int) *vMark {
@@ -274,6 +290,38 @@ func vsS22() {
 		}
 		e.vFinish("S22", top, pred, succ, bottom)
 		vAssert(ms.fills >= 1, "S22.successor-was-displayed")
+	case 2:
+		// a priority change on a bar that still waits for its predecessor concerns no bar of the frames
+		mt, mp, ms := mk(1), mk(2), mk(3)
+		top, _ := e.p.Add(2, mt, BarFillerTrim())
+		pred, _ := e.p.Add(2, mp, BarFillerTrim())
+		succ, _ := e.p.Add(2, ms, BarFillerTrim(), BarQueueAfter(pred))
+		succ.SetPriority(vParam("waitingPrio"))
+		if mode == vManual {
+			e.cycle()
+			vAssert(e.rec.seq[e.rec.n-1] == 0x12, "S22.waiting-bar-stays-hidden-and-no-bar-is-lost-when-its-priority-changes")
+		} else {
+			_ = top.Current()
+		}
+		vAssert(ms.fills == 0, "S22.waiting-bar-is-not-drawn-before-its-predecessor-finished")
+		pred.IncrBy(2)
+		if mode == vManual {
+			e.cycle()
+			e.cycle()
+			e.cycle()
+			vAssert(e.rec.seq[e.rec.n-1] == 0x13, "S22.successor-shown-once-in-the-predecessors-row")
+		} else {
+			pred.Wait()
+		}
+		top.IncrBy(2)
+		succ.IncrBy(2)
+		if mode == vManual {
+			for i := 0; i < 3; i++ {
+				e.refresh <- nil
+			}
+		}
+		e.vFinish("S22", top, pred, succ)
+		vAssert(e.left == 2, "S22.container-ends-with-the-top-bar-and-the-successor")
 	}
 }
 
